@@ -477,12 +477,23 @@ def _tar_mode_ok(f, marg):
     if not isinstance(head, ast.Name):
         return None, 'unmodelled tar mode expression'
     from ..astutil import defs_of
-    ds = defs_of(f.node, head.id)
+    ds = []
+    for n in own_nodes(f.node):
+        if isinstance(n, ast.Assign):
+            for t in n.targets:
+                if isinstance(t, ast.Name) and t.id == head.id:
+                    ds.append((n.value, n))
+                elif isinstance(t, ast.Tuple) and isinstance(n.value, ast.Tuple) and len(t.elts) == len(n.value.elts):
+                    for te, ve in zip(t.elts, n.value.elts):
+                        if isinstance(te, ast.Name) and te.id == head.id:
+                            ds.append((ve, n))
     if not ds:
         return None, f'{head.id} has no definition in archive'
     seen_x = False
     for val, st in ds:
         v = const_under(val)
+        if v is None and _mode_head(val) is not None:
+            v = const_under(_mode_head(val))
         if v is None:
             return None, f'{head.id} assigned a value the rule cannot fold'
         reach = runs_under(f, st, ft)
